@@ -22,6 +22,8 @@ def run(ck, F):
     ck.rule("R2", "whole-field copy: base members are cloned as whole Field values from the base struct's field list")
     ck.rule("R3", "extension dispatch: own content of <extension> includes sequence and attribute children")
     ck.rule("R4", "base lookup by (local name, namespace of the prefix)")
+    ck.rule("R5", "inherited members keep the namespace of the schema that declared them: a member is written with its own declaring "
+                  "namespace's prefix, and the derived struct declares every prefix its members can carry (prefix coverage, C03.R3)")
     roles = A.complex_readers(F)
     EXT = A.role_path(roles, "extension")
     CC = A.role_path(roles, "complexContent")
@@ -209,3 +211,7 @@ def run(ck, F):
     # must not be confused with a local one
     sub = C04._Sub(ck, "R4", lambda key: key.startswith(("registry-lookup", "xml-lookup", "global-components-only")), only_rules=("R3",))
     C09.run(sub, F)
+    # R5: a base in another namespace: its members arrive in the derived struct with their own namespace (whole-field copy, R2) and
+    # are written with that prefix; the derived struct has to declare it, or the member is not the base's member any more
+    from rules import c03 as C03
+    C03.run(C04._Sub(ck, "R5", lambda key: "member-prefix" in key or "floor" in key or "nsmap" in key or "prefix" in key, only_rules=("R3",)), F)
